@@ -293,12 +293,12 @@ class ExprMixin:
             raise Unsupported("sequence operator", node)
         if isinstance(a, VTuple) and isinstance(b, VTuple) and isinstance(op, ast.Add):
             return [(st, VTuple(a.elems + b.elems))]
-        if isinstance(a, VStr) or isinstance(b, VStr):
-            return [(st, VStr(t=fresh(STR, "strop").t))]
         if isinstance(a, VAbs):
-            r = a.call_method({ast.Add: "__add__", ast.Sub: "__sub__", ast.Mult: "__mul__"}.get(type(op), "?"),
+            r = a.call_method({ast.Add: "__add__", ast.Sub: "__sub__", ast.Mult: "__mul__", ast.Div: "__truediv__"}.get(type(op), "?"),
                               [b], {}, st, self)
             return r
+        if isinstance(a, VStr) or isinstance(b, VStr):
+            return [(st, VStr(t=fresh(STR, "strop").t))]
         real = isinstance(a, VReal) or isinstance(b, VReal)
         if isinstance(op, ast.Div):
             x, y = to_real(a), to_real(b)
@@ -830,6 +830,7 @@ class ExprMixin:
         return self.ev1(node, st)
 
     def call(self, fv, args, kwargs, st, node):
+        self.cur_call_node = node
         if isinstance(fv, VFunc):
             r = fv.fn(args, kwargs, st, self)
             return r if isinstance(r, list) else [(st, r)]
